@@ -155,6 +155,16 @@ def case(rng):
                 if eqv(x, l[i]): return l[i:]
             return False
         return ["(%s %s %s)" % (p, q(x), q(l))], [res(f)]
+    if p == "equal?" and rng.random() < 0.4:
+        # vectors: equal? compares them element by element (to any depth, mixed with lists)
+        def gv(d):
+            r = rng.random()
+            if d <= 0 or r < 0.4: return str(rng.choice([0, 1, 2, "a", "b"]))
+            if r < 0.7: return "#(" + " ".join(gv(d - 1) for _ in range(rng.randrange(0, 3))) + ")"
+            return "(" + " ".join(gv(d - 1) for _ in range(rng.randrange(0, 3))) + ")"
+        a = gv(3)
+        b = a if rng.random() < 0.5 else gv(3)
+        return ["(equal? '%s '%s)" % (a, b)], ["V #t" if a == b else "V #f"]
     if p == "equal?":
         a = gen_list(rng, 4, 2, improper=0.2)
         b = a if rng.random() < 0.5 else gen_list(rng, 4, 2, improper=0.2)
